@@ -11,6 +11,7 @@ import (
 	"fmt"
 	"os"
 	"path/filepath"
+	"time"
 )
 
 func init() {
@@ -46,6 +47,21 @@ func fixtures() []fixture {
 			p.writeStage("a.yaml", &StageRec{Cmd: "cp src.txt mid.txt", In: []Art{{Path: "src.txt"}}, Out: []Art{{Path: "mid.txt"}}})
 			p.writeStage("sub/b.yaml", &StageRec{Cmd: "mkdir -p out && cp mid.txt out/final.txt", In: []Art{{Path: "mid.txt"}}, Out: []Art{{Path: "out", IsDir: true}}})
 			return []string{"a.yaml", "sub/b.yaml"}
+		}},
+		{"deep-minimal-pools", func(p *Project, r *rng) []string {
+			// five directory levels, several sub-directories per level, under the smallest worker pools
+			// (one shared token, one dedicated per directory): every directory still gets its worker
+			p.ExtraEnv = append(p.ExtraEnv, "DUD_VERIF_SHARED_WORKERS=1", "DUD_VERIF_DEDICATED_WORKERS=1")
+			p.Timeout = 25 * time.Second
+			d := "deep"
+			for lvl := 0; lvl < 5; lvl++ {
+				must(os.MkdirAll(filepath.Join(p.Root, d, "side"), 0o755))
+				must(os.WriteFile(filepath.Join(p.Root, d, fmt.Sprintf("f%d.txt", lvl)), r.bytes(10+lvl), 0o644))
+				must(os.WriteFile(filepath.Join(p.Root, d, "side", "s.txt"), r.bytes(5+lvl), 0o644))
+				d = filepath.Join(d, "down")
+			}
+			p.writeStage("s.yaml", &StageRec{Out: []Art{{Path: "deep", IsDir: true}}})
+			return []string{"s.yaml"}
 		}},
 		{"flags", func(p *Project, r *rng) []string {
 			// every artifact flag a stage file can carry: a skip-cache file output beside a cached
@@ -128,7 +144,11 @@ func runIdem(o *opts) {
 	sc := 0
 	fx := fixtures()
 	for fi, f := range fx {
+		hangs := 0
 		for _, sq := range seqs {
+			if hangs >= 2 {
+				break // two commands that had to be killed are evidence enough for this fixture
+			}
 			sc++
 			rr := r.fork()
 			base := scenarioDir(o, "idem", sc)
@@ -160,6 +180,10 @@ func runIdem(o *opts) {
 				}
 				t, w2 := p.do(c, nil, want(spec, 13), nil, w)
 				w = w2
+				if p.Hung {
+					hangs++
+					t.Info["hung"] = true
+				}
 				t.Info["scenario"] = sc
 				t.Info["fixture"] = f.name
 				t.Info["sequence"] = fmt.Sprint(sq)
@@ -351,6 +375,48 @@ func runEffects(o *opts) {
 		s.count("shape:working-dir-inside-absent-output")
 		distinct[fmt.Sprintf("wd%d", k)] = true
 		rmrf(base)
+	}
+	// a stage whose command FAILS before touching anything: its outputs (a cached one, linked or copied,
+	// and a skip-cache one) and inputs are the user's, dud leaves them exactly as they are. (The model's
+	// commands do not fail: statements only, obs 9.)
+	for k := 0; k < 4; k++ {
+		base := scenarioDir(o, "effects", 700+k)
+		p := newProject(o, base, []string{"in", "rel", "abs", "in"}[k])
+		p.init()
+		must(os.WriteFile(filepath.Join(p.Root, "in.txt"), []byte("GOOD input"), 0o644))
+		must(os.WriteFile(filepath.Join(p.Root, "out.bin"), []byte("built from the good input"), 0o644))
+		must(os.WriteFile(filepath.Join(p.Root, "metrics.json"), []byte("{\"acc\": 1}"), 0o644))
+		must(os.MkdirAll(filepath.Join(p.Root, "outdir", "sub"), 0o755))
+		must(os.WriteFile(filepath.Join(p.Root, "outdir", "sub", "part.txt"), []byte("part"), 0o644))
+		cmd := []string{"grep -q GOOD in.txt && cp in.txt out.bin", "false", "exit 3", "grep -q GOOD in.txt"}[k]
+		p.writeStage("f.yaml", &StageRec{Cmd: cmd, In: []Art{{Path: "in.txt"}},
+			Out: []Art{{Path: "metrics.json", Skip: true}, {Path: "out.bin"}, {Path: "outdir", IsDir: true}}})
+		if res := p.dud("", "stage", "add", "f.yaml"); res.Exit != 0 {
+			must(fmt.Errorf("effects setup: %s", res.Stderr))
+		}
+		cargs := []string{"commit"}
+		if k%2 == 1 {
+			cargs = append(cargs, "--copy")
+		}
+		if res := p.dud("", cargs...); res.Exit != 0 {
+			must(fmt.Errorf("effects commit: %s", res.Stderr))
+		}
+		must(os.WriteFile(filepath.Join(p.Root, "in.txt"), []byte("BAD input"), 0o644)) // now out of date, and the command fails
+		for _, c := range []Cmd{{Kind: "run"}, {Kind: "run", Targets: []string{"f.yaml"}, Single: true}} {
+			t, _ := p.do(c, nil, want(5, 14, 21, 8, 9, 13), nil, nil)
+			t.Obs = append(t.Obs, 9)
+			t.Info["scenario"] = 700 + k
+			t.Info["step"] = "run of an out-of-date stage whose command fails: " + cmd
+			t.Info["shape"] = "failing-command"
+			t.Prot = append(t.Prot, "in.txt", "metrics.json")
+			all = append(all, t)
+		}
+		s.count("shape:failing-command")
+		distinct[fmt.Sprintf("fail%d", k)] = true
+		rmrf(base)
+		if p.CacheCfg != "" && filepath.Dir(p.CacheDir) != base {
+			rmrf(filepath.Dir(p.CacheDir))
+		}
 	}
 	// a project whose cache directory does not exist yet (a fresh clone: .dud/cache is git-ignored):
 	// read-only commands do not create it
